@@ -136,6 +136,41 @@ def kernel_cases(ctx):
         else:
             blk = [max(-128, min(127, (x * rng.range(-20, 20) + y * rng.range(-20, 20)) * amp // 128)) for y in range(8) for x in range(8)]
         cases.append(("fdctfst " + " ".join(map(str, blk)), "k-fdctfst-" + ("low" if amp <= 60 else "high")))
+    # range-limit table behind IDCT_range_limit(cinfo) vs the model's idct_range_limit
+    cases.append(("rangelimit", "k-rangelimit"))
+    # fast inverse DCT, boundary-aimed: DC only, one column, one row, sparse, dense; multiplier tables 4*q (IFAST_SCALE_BITS);
+    # products near 32767, operands near 8192
+    for r in range(ctx.n(160, 1600)):
+        amp = rng.choice([3, 30, 200, 600, 1023])
+        qm = rng.choice([1, 2, 8, 40, 255])
+        shape = r % 6
+        cf = [rng.range(-amp, amp) if rng.chance(1, 2) else 0 for _ in range(64)]
+        if shape == 0:
+            cf = [cf[0] or 1] + [0] * 63
+        elif shape == 1:
+            cf = cf[:8] + [0] * 56
+        elif shape == 2:
+            cf = [cf[i] if i % 8 == 0 else 0 for i in range(64)]
+        elif shape == 3:
+            cf = [cf[i] if (i % 8) + (i // 8) < 3 else 0 for i in range(64)]
+        q = [min(32767, 4 * rng.range(1, qm)) for _ in range(64)]
+        if r % 11 == 0:       # DC product right at the int16 / final-range boundaries
+            cf[0] = rng.choice([8191, 8192, 4095, 4096, -4096, -4097, 32767, -32768]) // q[0]
+        cases.append(("idctfst %s | %s" % (" ".join(map(str, cf)), " ".join(map(str, q))), "k-idctfst"))
+    # accurate forward DCT on level-shifted samples (always inside the proved boundary) and on 16-bit garbage (model only)
+    for r in range(ctx.n(120, 1200)):
+        amp = 128 if r % 8 else rng.choice([2000, 8000, 32767])
+        kind = r % 4
+        if kind == 0:
+            blk = [rng.range(-amp, amp - 1) for _ in range(64)]
+        elif kind == 1:
+            p_, q_ = rng.range(1, 4), rng.range(1, 4)
+            blk = [(amp - 1 if ((x // p_ + y // q_) & 1) else -amp) for y in range(8) for x in range(8)]
+        elif kind == 2:
+            blk = [rng.choice([-amp, amp - 1]) for _ in range(64)]
+        else:
+            blk = [rng.choice([-amp, amp - 1])] * 64
+        cases.append(("fdctint %s | %s" % (" ".join(map(str, blk)), " ".join(["1"] * 64)), "k-fdctint-" + ("samples" if amp == 128 else "garbage")))
     # bulk (compared inside the harness; exhaustive where feasible)
     seed = rng.below(1 << 30)
     for cs in ALL_CS:
@@ -205,6 +240,16 @@ def kernel_sig(line, stream):
         return "kernel:" + "-".join(t[1:3] if t[1] in ("fdct", "idct", "down", "fancy", "plain") else t[1:2])
     if t[0] in ("plaing", "fancyg", "downg"):
         return "kernel:rows-%s-h2v%s" % (t[0][:-1], "2" if t[1] == "1" else "1")
+    if t[0] == "idctfst":
+        if stream.endswith(":W0"):
+            return "kernel:idctfst:inside-proved-boundary"
+        cf = [int(x) for x in line.split("|")[0].split()[1:]]
+        qq = [int(x) for x in line.split("|")[1].split()]
+        if any(abs(a * b) >= 32768 for a, b in zip(cf, qq)):
+            return "idct-out-of-range-coefficients:kernel-ifast"
+        return "ifast-operand-ge-8192:kernel-idct"
+    if t[0] == "fdctint":
+        return "kernel:fdctint:" + ("inside-proved-boundary" if stream.endswith(":W0") else "16-bit-garbage-input")
     if t[0] == "fdctfst":
         # stream carries the prediction of the faithful C model (c_wraps14, 2-bit pre-shift): W1 = some multiply
         # operand leaves [-8192, 8191]
@@ -237,9 +282,9 @@ def do_kernel(ctx, exe, drv, cases, isas):
         for i, (line, stream) in enumerate(cases):
             res = lines[i]
             wflag = ""
-            if ml is not None and line.startswith("fdctfst") and " ; W" in ml[i]:
+            if ml is not None and line.split(" ", 1)[0] in ("fdctfst", "idctfst", "fdctint") and " ; W" in ml[i]:
                 ml[i], wflag = ml[i].rsplit(" ; ", 1)
-            elif line.startswith("fdctfst"):
+            elif line.split(" ", 1)[0] in ("fdctfst", "idctfst", "fdctint"):
                 wflag = "W1"            # no model available: do not claim more than the known finding
             parts = res.split(" ; ")[0].split(" | ")
             if len(parts) != 2 or not parts[0].startswith("S") or not parts[1].startswith("C"):
@@ -251,6 +296,8 @@ def do_kernel(ctx, exe, drv, cases, isas):
                 ok = quant_mask(line, s) == quant_mask(line, c)
             else:
                 ok = (s == c)
+            if not ok and cmd == "fdctint" and wflag == "W1" and stream.endswith("garbage"):
+                ok = True       # 16-bit garbage is not a forward-DCT input the codec can produce; model comparison only
             if not ok:
                 detail = res.split(" ; first_diff ")[1] if " ; first_diff " in res else "simd=%s c=%s" % (s[:120], c[:120])
                 ctx.violation("kernel level: %s differs from the C function under %s: %s" % (cmd if cmd != "bulk" else line, isa, detail[:300]),
